@@ -39,6 +39,7 @@ def parseStep (t : String) : Option Step :=
   | ["wait", n] => some (.wait n)
   | ["sched", d, k] => do let d ← d.toNat?; let k ← k.toNat?; pure (.sched d k)
   | ["spawn", t] => some (.spawn t)
+  | ["spawnl", _] => none   -- `spawn_local`: outside the model (`nomodel=1` cases only)
   | ["sleep", d] => d.toNat?.map Step.sleep
   | ["shut"] => some .shut
   | ["restart", d] => d.toNat?.map Step.restart
@@ -212,7 +213,11 @@ def main (stdin : IO.FS.Stream) : IO Unit := do
         let ro := runs.getD r {}
         runs := runs.insert r { ro with res := " ".intercalate rest }
       | _ => pure ()
-    let names := if wantChild then ["a1", "a2", "b", "c"] else ["a1", "a2", "b"]
+    -- `cq=<n>:<ns>`: the builder was configured (calendar-queue geometry, non-binding options in some call order);
+    -- run `g` is the same (model, seed) with the plain builder and the default geometry
+    let hasGeo := (kv htoks "cq").isSome
+    let noModel := (kv htoks "nomodel") == some "1"
+    let names := (if wantChild then ["a1", "a2", "b", "c"] else ["a1", "a2", "b"]) ++ (if hasGeo then ["g"] else [])
     match names.find? (fun n => (runs[n]?).isNone || (runs.getD n {}).res == "") with
     | some n =>
       IO.println s!"fail {id} op=0 kind=harness detail=run-{n}-missing"
@@ -237,8 +242,8 @@ def main (stdin : IO.FS.Stream) : IO Unit := do
         let clause := match (a1.obs[i]?), (r.obs[i]?) with
           | some o1, some o2 =>
             if o1.what == "msg" && { o1 with peer := "" } == { o2 with peer := "" } && o1.peer != o2.peer
-            then "sender-resolution" else "nondeterminism"
-          | _, _ => "nondeterminism"
+            then "sender-resolution" else (if n == "g" then "geometry-dependence" else "nondeterminism")
+          | _, _ => if n == "g" then "geometry-dependence" else "nondeterminism"
         verdict := some s!"fail {id} op={i} kind=reject clause={clause} pair=a1/{n} seed={seed} first={us (x[i]?.getD "<end>")} other={us (y[i]?.getD "<end>")}"
       | none =>
         if sortStrings a1.drops != sortStrings r.drops then
@@ -250,6 +255,20 @@ def main (stdin : IO.FS.Stream) : IO Unit := do
           tearOrder := some s!"fail {id} op=0 kind=reject clause=build-time-clock pair=a1/{n} seed={seed} first={a1.built} other={r.built}"
     if let some v := verdict then
       IO.println v
+      continue
+    -- `nomodel=1`: the case uses what the model does not cover (tasks on the module's LocalSet, logged as `L.<tag>`):
+    -- the comparison of the real executions is the whole check
+    if noModel then
+      if let some v := tearOrder then
+        IO.println v
+        continue
+      let cntw := fun (w : String) => (a1.obs.filter (·.what == w)).size
+      let localDecisive := a1.obs.any (fun o => o.what == "sel" && o.who.startsWith "L." &&
+        (match sc.tasks.find? (·.1 == (o.who.drop 2)) with
+         | some t => hasDecisiveSel t.2
+         | none => false))
+      let nt := localDecisive && wantChild && sc.created.length ≥ 2
+      IO.println s!"ok {id} nt={if nt then 1 else 0} mods={sc.created.length} obs={a1.obs.size} nomodel=1 localsels={(a1.obs.filter (fun o => o.what == "sel" && o.who.startsWith "L.")).size} sels={cntw "sel"} msgs={cntw "msg"} child={if wantChild then 1 else 0} geo={if hasGeo then 1 else 0}"
       continue
     -- 2. the model on the recorded stream
     match streamOf sc a1 with
@@ -332,6 +351,6 @@ def main (stdin : IO.FS.Stream) : IO Unit := do
       let starts := cnt "start"
       let ntNdl := sc.ndl && starts ≥ 5 && draws ≥ starts - 1 && cnt "msg" ≥ 3 && wantChild
       let nt := nt || ntNdl
-      IO.println s!"ok {id} nt={if nt then 1 else 0} mods={sc.created.length} obs={a1.obs.size} draws={draws} jitter={jit} selpolls={cnt "sp"} sels={cnt "sel"} msgs={cnt "msg"} wakes={cnt "woke"} unfinished={a1.drops.size} child={if wantChild then 1 else 0} stream={stream.length} resets={restarts} laterdecisive={if decisiveLater then 1 else 0} xmits={cnt "xmit"} sendin={sendin} sigs={cnt "sig"} gots={cnt "got"} endemits={endEmits} ndl={if sc.ndl then 1 else 0}"
+      IO.println s!"ok {id} nt={if nt then 1 else 0} mods={sc.created.length} obs={a1.obs.size} draws={draws} jitter={jit} selpolls={cnt "sp"} sels={cnt "sel"} msgs={cnt "msg"} wakes={cnt "woke"} unfinished={a1.drops.size} child={if wantChild then 1 else 0} stream={stream.length} resets={restarts} laterdecisive={if decisiveLater then 1 else 0} xmits={cnt "xmit"} sendin={sendin} sigs={cnt "sig"} gots={cnt "got"} endemits={endEmits} ndl={if sc.ndl then 1 else 0} geo={if hasGeo then 1 else 0}"
 
 end Driver.C04
